@@ -30,13 +30,14 @@ Qed.
    unchanged with no flag *)
 Lemma div_raw_from_elems d fx fy fz K (g : Z * Z -> Z) cxs cys r o :
   length cxs = length cys -> cxs <> [] -> 1 <= nw fz -> (K = KU -> nw fz < 64) -> (K = KF -> nw fz <= 53) ->
-  (forall p, In p (combine cxs cys) ->
-     div_raw_elem d fx fy (nf fz) (fst p) (snd p) = Ok (encode K (g p)) /\ kind_ok K (g p) /\ in_range fz (g p)) ->
+  (forall exa exb exq p, In p (combine cxs cys) ->
+     div_raw_elem exa exb exq d fx fy (nf fz) (fst p) (snd p) = Ok (encode K (g p)) /\ kind_ok K (g p) /\ in_range fz (g p)) ->
   exists w, div_raw d fx cxs fy cys fz r o = Ok w /\
     w_codes w = map g (combine cxs cys) /\ w_ovf w = false /\ w_unf w = false.
 Proof.
-  intros Hlen Hne Hw HU HF Hel. unfold div_raw.
-  rewrite (map2M_pairs _ (fun p => encode K (g p))); [|exact Hlen|intros p Hp; apply (Hel p Hp)].
+  intros Hlen Hne Hw HU HF Hel0. unfold div_raw. cbv zeta.
+  rewrite (map2M_pairs _ (fun p => encode K (g p))); [|exact Hlen|intros p Hp; apply (Hel0 _ _ _ p Hp)].
+  pose proof (Hel0 false false false) as Hel.
   cbn [bind]. rewrite <- (map_map g (encode K)).
   assert (Hzne: map g (combine cxs cys) <> []).
   { destruct cxs as [|a cxs]; [congruence|]. destruct cys as [|b cys]; [discriminate|]. cbn. discriminate. }
@@ -102,10 +103,11 @@ Proof.
 Qed.
 
 (* utils.scale_raw on a small operand: never needs Python integers, same as the plain product *)
-Lemma mscale_raw_up f c k : div_small f -> in_range f c -> 0 <= k <= 26 ->
-  mscale_raw (load (storage f) c) k = Ok (encode (if sg f then KI else KU) (c * 2^k)).
+Lemma mscale_raw_up ex f c k : div_small f -> in_range f c -> 0 <= k <= 26 ->
+  mscale_raw ex (load (storage f) c) k = Ok (encode (if sg f then KI else KU) (c * 2^k)).
 Proof.
-  intros Hf Hr Hk. unfold mscale_raw. destruct (0 <? k) eqn:Ek; [|apply mscale_up; assumption].
+  intros Hf Hr Hk. unfold mscale_raw. replace (k <? 0) with false by lia. cbn [andb].
+  destruct (0 <? k) eqn:Ek; [|apply mscale_up; assumption].
   destruct (small_mag f c Hf Hr) as (Hc & Hpos). destruct Hf as (Hw & _). rewrite storage_small by lia.
   assert (Pk: 0 < 2^k <= 2^26) by (split; [apply pow2_pos; lia | apply pow2_le; lia]).
   assert (E52: 2^26 * 2^26 = 2^52) by reflexivity. assert (E5263: 2^52 < 2^63) by (apply pow2_lt; lia). assert (E64: 2^63 < 2^64) by (apply pow2_lt; lia).
@@ -120,8 +122,8 @@ Proof.
 Qed.
 
 (* ---------- x / y ---------- *)
-Lemma truediv_elem fx fy a b : div_small fx -> div_small fy -> in_range fx a -> in_range fy b -> b <> 0 ->
-  div_raw_elem DTrue fx fy (nf (grow_truediv fx fy)) a b = Ok (encode (kind2 fx fy) (truediv_floor fx a fy b))
+Lemma truediv_elem exa exb exq fx fy a b : div_small fx -> div_small fy -> in_range fx a -> in_range fy b -> b <> 0 ->
+  div_raw_elem exa exb exq DTrue fx fy (nf (grow_truediv fx fy)) a b = Ok (encode (kind2 fx fy) (truediv_floor fx a fy b))
   /\ Z.abs (truediv_floor fx a fy b) < 2^53.
 Proof.
   intros Hx Hy Hra Hrb Hb. destruct (small_mag fx a Hx Hra) as (Ha & Pa). destruct (small_mag fy b Hy Hrb) as (Hbm & Pb).
@@ -150,9 +152,9 @@ Proof.
   assert (Hwz: 1 <= nw (grow_truediv fx fy) <= 53).
   { unfold grow_truediv, mkfmt. cbn [nw]. destruct Hx as (? & ?), Hy as (? & ?). destruct (sg fx), (sg fy); cbn [orb]; lia. }
   apply (div_raw_from_elems DTrue fx fy (grow_truediv fx fy) (kind2 fx fy) (fun p => truediv_floor fx (fst p) fy (snd p))); try assumption; try lia.
-  intros [a b] Hp. cbn [fst snd]. rewrite Forall_forall in Hrx, Hry.
+  intros exa exb exq [a b] Hp. cbn [fst snd]. rewrite Forall_forall in Hrx, Hry.
   pose proof (Hrx a (in_combine_l _ _ _ _ Hp)) as Ha. destruct (Hry b (in_combine_r _ _ _ _ Hp)) as (Hb & Hb0).
-  destruct (truediv_elem fx fy a b Hx Hy Ha Hb Hb0) as (He & Hm).
+  destruct (truediv_elem exa exb exq fx fy a b Hx Hy Ha Hb Hb0) as (He & Hm).
   split; [exact He|]. split; [apply kind2_ok; exact Hm|].
   apply truediv_in_range; try assumption; destruct Hx as (? & ?), Hy as (? & ?); lia.
 Qed.
@@ -175,8 +177,8 @@ Proof.
     rewrite (wrap_u64_small (A mod B)) by nia. reflexivity.
 Qed.
 
-Lemma mod_elem fx fy a b : div_small fx -> div_small fy -> in_range fx a -> in_range fy b -> b <> 0 ->
-  div_raw_elem DMod fx fy (nf (grow_mod fx fy)) a b = Ok (encode (kind2 fx fy) (mod_code fx a fy b))
+Lemma mod_elem exa exb exq fx fy a b : div_small fx -> div_small fy -> in_range fx a -> in_range fy b -> b <> 0 ->
+  div_raw_elem exa exb exq DMod fx fy (nf (grow_mod fx fy)) a b = Ok (encode (kind2 fx fy) (mod_code fx a fy b))
   /\ Z.abs (mod_code fx a fy b) < 2^53.
 Proof.
   intros Hx Hy Hra Hrb Hb. destruct (small_mag fx a Hx Hra) as (Ha & Pa). destruct (small_mag fy b Hy Hrb) as (Hbm & Pb).
@@ -193,7 +195,7 @@ Proof.
   assert (E52: 2^26 * 2^26 = 2^52) by reflexivity. assert (E5253: 2^52 < 2^53) by (apply pow2_lt; lia).
   assert (HA: Z.abs (a * 2^kx) < 2^53) by (rewrite Z.abs_mul, (Z.abs_eq (2^kx)) by lia; nia).
   assert (HB: Z.abs (b * 2^ky) < 2^53) by (rewrite Z.abs_mul, (Z.abs_eq (2^ky)) by lia; nia).
-  rewrite (mscale_raw_up fx a kx Hx Hra Hkx), (mscale_raw_up fy b ky Hy Hrb Hky). cbn [bind].
+  rewrite (mscale_raw_up exa fx a kx Hx Hra Hkx), (mscale_raw_up exb fy b ky Hy Hrb Hky). cbn [bind].
   rewrite mmod_ints; try assumption; try nia; try (intros Hs; specialize (Pa Hs); nia); try (intros Hs; specialize (Pb Hs); nia).
   split; [reflexivity|]. set (A := a * 2^kx) in *. set (B := b * 2^ky) in *. assert (B <> 0) by (unfold B; nia). nia.
 Qed.
@@ -251,9 +253,9 @@ Proof.
   assert (Hwz: 1 <= nw (grow_mod fx fy) <= 53).
   { unfold grow_mod, mkfmt. cbn [nw]. destruct Hx as (? & ?), Hy as (? & ?). destruct (sg fx), (sg fy); cbn [orb]; lia. }
   apply (div_raw_from_elems DMod fx fy (grow_mod fx fy) (kind2 fx fy) (fun p => mod_code fx (fst p) fy (snd p))); try assumption; try lia.
-  intros [a b] Hp. cbn [fst snd]. rewrite Forall_forall in Hrx, Hry.
+  intros exa exb exq [a b] Hp. cbn [fst snd]. rewrite Forall_forall in Hrx, Hry.
   pose proof (Hrx a (in_combine_l _ _ _ _ Hp)) as Ha. destruct (Hry b (in_combine_r _ _ _ _ Hp)) as (Hb & Hb0).
-  destruct (mod_elem fx fy a b Hx Hy Ha Hb Hb0) as (He & Hm).
+  destruct (mod_elem exa exb exq fx fy a b Hx Hy Ha Hb Hb0) as (He & Hm).
   split; [exact He|]. split; [apply kind2_ok; exact Hm|]. apply mod_in_range; assumption.
 Qed.
 
@@ -275,8 +277,8 @@ Proof.
 Qed.
 
 (* the raw values aligned on the finer fraction length, integer quotient, n_frac = 0 *)
-Lemma floordiv_elem fx fy a b : div_small fx -> div_small fy -> in_range fx a -> in_range fy b -> b <> 0 ->
-  div_raw_elem DFloor fx fy (nf (grow_floordiv fx fy)) a b = Ok (encode (kind2 fx fy) (floordiv_code fx a fy b)).
+Lemma floordiv_elem exa exb exq fx fy a b : div_small fx -> div_small fy -> in_range fx a -> in_range fy b -> b <> 0 ->
+  div_raw_elem exa exb exq DFloor fx fy (nf (grow_floordiv fx fy)) a b = Ok (encode (kind2 fx fy) (floordiv_code fx a fy b)).
 Proof.
   intros Hx Hy Hra Hrb Hb. pose proof (floordiv_code_mag fx a fy b Hx Hy Hra Hrb Hb) as Hq.
   destruct (small_mag fx a Hx Hra) as (Ha & Pa). destruct (small_mag fy b Hy Hrb) as (Hbm & Pb).
@@ -294,10 +296,10 @@ Proof.
   assert (E52: 2^26 * 2^26 = 2^52) by reflexivity. assert (E5253: 2^52 < 2^53) by (apply pow2_lt; lia).
   assert (HA: Z.abs (a * 2^kx) < 2^53) by (rewrite Z.abs_mul, (Z.abs_eq (2^kx)) by lia; nia).
   assert (HB: Z.abs (b * 2^ky) < 2^53) by (rewrite Z.abs_mul, (Z.abs_eq (2^ky)) by lia; nia).
-  rewrite (mscale_raw_up fx a kx Hx Hra Hkx), (mscale_raw_up fy b ky Hy Hrb Hky). cbn [bind].
+  rewrite (mscale_raw_up exa fx a kx Hx Hra Hkx), (mscale_raw_up exb fy b ky Hy Hrb Hky). cbn [bind].
   rewrite mfloordiv_ints; try assumption; try nia; try (intros Hs; specialize (Pa Hs); nia); try (intros Hs; specialize (Pb Hs); nia).
   assert (Hc: a * 2^kx / (b * 2^ky) = floordiv_code fx a fy b) by (rewrite floordiv_code_aligned; reflexivity).
-  rewrite Hc. unfold mscale_raw. change (0 <? 0) with false. cbv iota. unfold mscale. change (0 <=? 0) with true. cbv iota.
+  rewrite Hc. unfold mscale_raw. change (0 <? 0) with false. cbn [andb]. cbv iota. unfold mscale. change (0 <=? 0) with true. cbv iota.
   unfold kind2. destruct (sg fx), (sg fy); cbn [encode].
   - unfold fits_i64. replace ((- 2^63 <=? 2^0) && (2^0 <? 2^63)) with true by reflexivity. rewrite Z.pow_0_r, Z.mul_1_r, wrap_i64_small by lia. reflexivity.
   - cbn [f64_mul_pow2]. rewrite (rnd64_exact _ (0 + 0)); [reflexivity|]. pose proof (bitlen_le (floordiv_code fx a fy b) 53 ltac:(lia) Hq). pose proof (bitlen_nonneg (floordiv_code fx a fy b)). unfold fits53. lia.
@@ -357,7 +359,7 @@ Theorem floordiv_raw_model_any fx fy cxs cys r o : div_small fx -> div_small fy 
 Proof.
   intros Hx Hy Hw1 Hlen Hne Hrx Hry.
   apply (div_raw_from_elems DFloor fx fy (grow_floordiv fx fy) (kind2 fx fy) (fun p => floordiv_code fx (fst p) fy (snd p))); try assumption; try lia.
-  intros [a b] Hp. cbn [fst snd]. rewrite Forall_forall in Hrx, Hry.
+  intros exa exb exq [a b] Hp. cbn [fst snd]. rewrite Forall_forall in Hrx, Hry.
   pose proof (Hrx a (in_combine_l _ _ _ _ Hp)) as Ha. destruct (Hry b (in_combine_r _ _ _ _ Hp)) as (Hb & Hb0).
   split; [apply floordiv_elem; assumption|]. pose proof (floordiv_code_mag fx a fy b Hx Hy Ha Hb Hb0) as Hm.
   split; [apply kind2_ok; exact Hm | apply floordiv_in_range; assumption].
